@@ -164,6 +164,15 @@ def run(ctx):
         ctx.fail(f"ELEMENT-MASK: only {n5} element terms of the bus demand found")
     from rules import _lints
     _lints.both_switch_ends(ctx, "FUSE-BOTH-ENDS")
+    RO = "OOS-BRANCH-ROW"
+    ctx.rule(RO, "_branches_with_oos_buses addresses the ppc branch row of a line at an out-of-service bus by the position of the line in the "
+                 "whole line table (ppc['branch'] has a row for every line): the row index is derived from net[line_table].index")
+    fob = ctx.repo.func("pandapower.build_branch:_branches_with_oos_buses")
+    st = next((x for x in ast.walk(fob.node) if isinstance(x, ast.Assign) and norm(x.targets[0], 30).replace(" ", "") == "ls_info[:,2]"), None)
+    v = norm(st.value, 160).replace(" ", "") if st is not None else ""
+    ok = st is not None and "net[line_table].index" in v
+    ctx.ob(RO, "pandapower.build_branch::_branches_with_oos_buses::row-in-line-table", ok, f"row = {v[:100]}" if ok else
+           f"`ls_info[:, 2] = {v[:100]}` counts positions among the in-service lines: with an out-of-service line stored before it another line is opened", fob.loc(st) if st is not None else fob.loc())
     RT = "TYPE-LOOP"
     ctx.rule(RT, "loops over a literal list of element types in the ppc builders and the topology graph builder contain no return / "
                  "break: open switches, in-service masks and edges are handled for every listed type, not only up to the first hit")
@@ -201,6 +210,7 @@ def variants(repo):
     rb = "pandapower/results_bus.py"
     V = Variant
     return [
+        V("oos-bus line addressed among in-service lines", "pandapower/build_branch.py", replace_once("ls_info[:, 2] = np.nonzero(np.isin(net[line_table].index, line_is_idx[mask_or]))[0]", "ls_info[:, 2] = np.nonzero(mask_or)[0]"), "OOS-BRANCH-ROW"),
         V("open-switch neglect stops after the first branch type", "pandapower/build_branch.py", in_function("_switch_branches", replace_once('            ppc["branch"][sw_branch_index, BR_STATUS] = 0\n            continue', '            ppc["branch"][sw_branch_index, BR_STATUS] = 0\n            return')), "TYPE-LOOP"),
         V("motor masked by the raw in_service column", "pandapower/build_bus.py", in_function("_get_motor_pq", replace_once('active = net._is_elements["motor"]', 'active = tab["in_service"].values.astype(bool)')), "ELEMENT-MASK"),
         V("bb switch mask tests bus twice", "pandapower/build_bus.py", in_function("create_bus_lookup", replace_once('np.isin(net["switch"]["element"].values, bus_is_idx))', 'np.isin(net["switch"]["bus"].values, bus_is_idx))')), "FUSE-BOTH-ENDS"),
